@@ -481,10 +481,6 @@ def simplify(t):
             k = 'cast'
         if k == 'cast' and a[0] == 'const' and isinstance(a[2], int) and T in ('S', 'U', 'L', 'Z'):
             return ('const', T, a[2])
-        # frozen equivalence: float -> int64 -> int32 equals float -> int32 wherever the latter is defined
-        # (an out-of-range direct conversion is undefined behaviour, i.e. outside the operator's domain)
-        if k == 'cast' and T in ('S', 'U') and a[0] == 'cast' and a[1] == 'L' and ttype(a[2]) in ('D', 'F'):
-            return ('cast', T, a[2])
         return (k, T, a)
     if k == 'un':
         return ('un', t[1], t[2], simplify(t[3]))
